@@ -237,6 +237,11 @@ fn main() {
             match engine.as_str() {
                 "orswot" => drive::drive::<eng_orswot::OrswotEng>(out, &o),
                 "mvreg" => drive::drive::<eng_mvreg::MVRegEng>(out, &o),
+                "simple" => {
+                    let i = flags.iter().position(|f| *f == "--kind").expect("--kind");
+                    eng_simple::set_kind(flags[i + 1]);
+                    drive::drive::<eng_simple::SimpleEng>(out, &o)
+                }
                 "list" => drive::drive::<eng_list::ListEng>(out, &o),
                 "glist" => drive::drive::<eng_list::GListEng>(out, &o),
                 "merkle" => drive::drive::<eng_merkle::MerkleEng>(out, &o),
